@@ -1106,6 +1106,30 @@ def typearg_cases(jobs):
     return out
 
 
+def typearg_context_cases(jobs):
+    """C06 over worlds whose arguments are types: job = {id, world, call, contexts:[{name, methods}]}."""
+    out = []
+    for job in jobs:
+        steps = []
+        skip = None
+        for ctx in job["contexts"]:
+            w = dict(job["world"])
+            w["methods"] = ctx["methods"]
+            r = typearg_cases([{"id": job["id"], "world": w, "calls": [job["call"]]}])[0]
+            if "skip" in r:
+                skip = r["skip"]
+                break
+            st = r["steps"][0]
+            steps.append({"call": st["call"], "methods": ctx["methods"], "ctx": ctx["name"], "obs": st["obs"]})
+        if skip:
+            out.append({"id": job["id"], "skip": skip})
+        else:
+            w = dict(job["world"])
+            w["methods"] = job["contexts"][0]["methods"]
+            out.append({"id": job["id"], "props": ["C06"], "world": w, "steps": steps})
+    return out
+
+
 # ---------------------------------------------------------------------------
 # C15: equivalent spellings
 # ---------------------------------------------------------------------------
